@@ -59,6 +59,12 @@ func (u *updateExecutor) ExecContext(ctx context.Context, f exec.CallbackWithNam
 		u.afterHooks(ctx, u.execContext)
 	}()
 
+	// an UPDATE that assigns a primary-key column cannot be undone by key; it has to be refused before
+	// it runs: the size check below only sees it afterwards, when the row has already moved
+	if err := u.assertNoPrimaryKeyAssignment(ctx); err != nil {
+		return nil, err
+	}
+
 	beforeImage, err := u.beforeImage(ctx)
 	if err != nil {
 		return nil, err
@@ -82,6 +88,30 @@ func (u *updateExecutor) ExecContext(ctx context.Context, f exec.CallbackWithNam
 	u.execContext.TxCtx.RoundImages.AppendAfterImage(afterImage)
 
 	return res, nil
+}
+
+// assertNoPrimaryKeyAssignment refuses an UPDATE whose SET list names a primary-key column
+func (u *updateExecutor) assertNoPrimaryKeyAssignment(ctx context.Context) error {
+	if !u.isAstStmtValid() {
+		return nil
+	}
+	tableName, _ := u.parserCtx.GetTableName()
+	metaData, err := datasource.GetTableCache(types.DBTypeMySQL).GetTableMeta(ctx, u.execContext.DBName, tableName)
+	if err != nil {
+		return err
+	}
+	pkNames := metaData.GetPrimaryKeyOnlyName()
+	for _, assignment := range u.parserCtx.UpdateStmt.List {
+		if assignment == nil || assignment.Column == nil {
+			continue
+		}
+		for _, pk := range pkNames {
+			if strings.EqualFold(assignment.Column.Name.O, pk) {
+				return fmt.Errorf("update of the primary key column %s is not supported in a global transaction", pk)
+			}
+		}
+	}
+	return nil
 }
 
 // beforeImage build before image
